@@ -146,7 +146,7 @@ func permutations(n int) [][]int {
 }
 
 var conflictKinds = []string{"dup_object", "dup_interface", "dup_union", "dup_enum", "dup_input", "overlap_boundary_field", "overlap_namespace_field",
-	"kind_collision", "kind_collision_scalar", "boundary_vs_plain", "namespace_vs_boundary"}
+	"kind_collision", "kind_collision_scalar", "namespace_key_one_side", "boundary_vs_plain", "namespace_vs_boundary"}
 
 // injectConflict appends one conflicting definition to two service SDLs. Returns false if the kind does not apply.
 func injectConflict(r *rand.Rand, fed *federation, kind string) bool {
@@ -192,6 +192,14 @@ func injectConflict(r *rand.Rand, fed *federation, kind string) bool {
 	case "kind_collision":
 		addTo(a, "type Coll { x: String }")
 		addTo(b, "enum Coll { P Q }")
+	case "namespace_key_one_side":
+		// the same argument-free namespace link in two services is only a shared namespace when NEITHER side gives the namespace
+		// type a key; with an id on one side it is an overlapping field, whichever service is merged first
+		if a.Schema != nil && a.Schema.Query != nil && a.Schema.Query.Fields.ForName("node") != nil {
+			return false
+		}
+		addTo(a, "type NsKeyed @namespace { id: ID! left: String }\nextend type Query { keyed: NsKeyed! }")
+		addTo(b, "type NsKeyed @namespace { right: String }\nextend type Query { keyed: NsKeyed! }")
 	case "kind_collision_scalar":
 		// a custom scalar against any other kind, either side first
 		other := []string{"type Coll2 { x: String }", "interface Coll2 { x: String }", "enum Coll2 { P Q }", "input Coll2 { x: String }",
